@@ -131,6 +131,12 @@ def _lists(h, s, na, nb, names=V2, vf=False):
         fa, fb = s.term("fa", names, support=[]), s.term("fb", names, support=[])
         ta = [fa] + ta if h.ctx.choose(2, "vf_first_a") == 0 else ta + [fa]
         tb = [fb] + tb if h.ctx.choose(2, "vf_first_b") == 0 else tb + [fb]
+        if vf == 2:
+            # a second one at the other end or next to the first (their constants are independent: a failing one before a
+            # holding one, and the converse, are both among the cases)
+            fa2, fb2 = s.term("fa2", names, support=[]), s.term("fb2", names, support=[])
+            ta = ta + [fa2] if h.ctx.choose(2, "vf2_last_a") == 0 else [fa2] + ta
+            tb = tb + [fb2] if h.ctx.choose(2, "vf2_last_b") == 0 else [fb2] + tb
     return s.termlist(ta), s.termlist(tb)
 
 
@@ -172,6 +178,13 @@ def _refines(na, nb):
                 wit = {n: z3.RealVal(0) for n in V2}
                 wit[n0] = (s.const(u) + 1) / co[n0]
                 h.ensure("C03.list_refines.witness_outside_right_side", z3.Not(s.holds(u, wit)))
+        elif not cont:
+            # decided without the containment test (a shortcut is no defect by itself): the answer is held against the
+            # meaning of the two lists directly - True at most if contained (valid at the skolem point), False at most if
+            # some point separates them (an existential statement: discharged or left undecided, never assumed)
+            pt = {n_: z3.Real("sep_%s" % n_) for n_ in V2}
+            h.ensure("C03.list_refines.true_only_if_contained", z3.Implies(_bool(r), z3.Implies(s.sat(A), s.sat(B))))
+            h.ensure("C03.list_refines.false_only_if_not_contained", z3.Implies(z3.Not(_bool(r)), z3.Exists(list(pt.values()), z3.And(s.sat(A, pt), z3.Not(s.sat(B, pt))))))
         else:
             h.check("C03.list_refines.one_containment_test", len(cont) == 1 and len(st.orders) >= 1, "%d tests" % len(cont))
             if len(cont) == 1 and st.orders:
@@ -207,6 +220,13 @@ def _is_empty(n):
         if out.kind != "return":
             return
         tests = [x for x in st.log if x["op"] == "is_empty"]
+        if not tests:
+            # decided without the emptiness test: held against the meaning of the list directly (see refines)
+            pt = {n_: z3.Real("in_%s" % n_) for n_ in V2}
+            h.ensure("C11.is_empty.true_only_if_empty", z3.Implies(_bool(out.value), z3.Not(s.sat(A))))
+            h.ensure("C11.is_empty.false_only_if_some_point_is_inside", z3.Implies(z3.Not(_bool(out.value)), z3.Exists(list(pt.values()), s.sat(A, pt)) if n else z3.BoolVal(True)))
+            h.frame_ok(out, "C13.frame")
+            return
         h.check("C11.is_empty.one_emptiness_test", len(tests) == 1 and st.orders, "%d tests" % len(tests))
         if len(tests) == 1 and st.orders:
             x = _vec(s, st.orders[-1])
@@ -240,6 +260,31 @@ def _simplify(n, nc):
         out = h.call(h.method(A, "simplify"), args)
         ctx_sat = s.sat(G) if nc is not None else z3.BoolVal(True)
         red = [x for x in st.log if x["op"] == "reduce"]
+        if not red and out.kind == "return" and s.is_termlist(out.value):
+            # a shortcut that asks for no reduction is no defect by itself (a single constraint without context cannot be
+            # redundant): the postconditions are then stated on the result alone, without the callee's contract
+            h.cover("return")
+            R = out.value
+            rts = R.attrs["terms"].items
+            h.ensure("C07.simplify.equivalent_in_context", z3.Implies(ctx_sat, s.sat(R) == s.sat(A)))
+            for k, t in enumerate(rts):
+                h.ensure("C07.simplify.term_%d_is_an_original_term" % k, z3.Or(*[s.same_term(t, o) for o in a_terms]) if a_terms else False)
+                h.ensure("C07.simplify.term_%d_invariant" % k, s.invariant(t))
+                # not redundant: some point meets the other kept terms and the context and violates this one
+                pt = {n_: z3.Real("nr%d_%s" % (k, n_)) for n_ in V2}
+                others = z3.And(*[s.holds(rts[q], pt) for q in range(len(rts)) if q != k]) if len(rts) > 1 else z3.BoolVal(True)
+                bk = s.const(t)
+                margin = z3.RealVal("1/10000") * (1 + z3.If(bk >= 0, bk, -bk))
+                cs = s.sat(G, pt) if nc is not None else z3.BoolVal(True)
+                if len(rts) == 1 and not (nc and G.attrs["terms"].items):
+                    # alone and without context: violated somewhere iff some coefficient is not zero
+                    h.ensure("C07.simplify.kept_term_%d_not_redundant" % k, z3.Or(*[c != 0 for c in s.coefs(t).values()]) if s.coefs(t) else z3.BoolVal(False))
+                else:
+                    h.ensure("C07.simplify.kept_term_%d_not_redundant" % k, z3.Exists(list(pt.values()), z3.And(others, cs, s.lhs(t, pt) > bk - margin)))
+            h.check("C13.simplify.fresh_terms", all(t is not o for t in rts for o in a_terms) and R is not A, "result shares term objects with self")
+            h.check("C13.operands_unchanged", all(s.unchanged(t, sn) for t, sn in zip(a_terms, snaps)) and A.attrs["terms"].items == a_terms, "self modified")
+            h.frame_ok(out, "C13.frame")
+            return
         h.check("C07.simplify.one_reduction", len(red) == 1 and st.orders, "%d reductions" % len(red))
         if not (len(red) == 1 and st.orders):
             return
@@ -511,11 +556,11 @@ for _n in (0, 1, 2):
 # ------------------------------------------------------------------------------------------------
 # constraints without variables (0 <= c: cancelling coefficients): set aside before any matrix is built
 # ------------------------------------------------------------------------------------------------
-def _refines_vf(na, nb):
+def _refines_vf(na, nb, k=1):
     def c(h):
         s = S(h)
         st = LPStubs(h, s)
-        A, B = _lists(h, s, na, nb, vf=True)
+        A, B = _lists(h, s, na, nb, vf=k)
         out = h.call(h.method(A, "refines"), [B])
         h.check("C14.refines.no_exception", out.kind == "return", "raised %s at %s" % (out.exc_name, out.where))
         if out.kind != "return":
@@ -557,11 +602,11 @@ for _na, _nb in [(0, 0), (1, 0), (0, 1), (1, 1)]:
     )(_refines_vf(_na, _nb))
 
 
-def _is_empty_vf(n):
+def _is_empty_vf(n, k=1):
     def c(h):
         s = S(h)
         st = LPStubs(h, s)
-        A, _ = _lists(h, s, n, 0, vf=True)
+        A, _ = _lists(h, s, n, 0, vf=k)
         out = h.call(h.method(A, "is_empty"), [])
         h.check("C14.is_empty.no_exception", out.kind == "return", "raised %s at %s" % (out.exc_name, out.where))
         if out.kind != "return":
@@ -589,3 +634,65 @@ for _n in (0, 1, 2):
         bound="%d terms over {x,y}, every support, and one constraint 0 <= c, first or last" % _n,
         assumes=["contract of is_polytope_empty (h_lp)", "A5"],
     )(_is_empty_vf(_n))
+
+
+contract(
+    "PolyhedralTermList.refines[1,1,plus two constraints without variables on each side]",
+    ["C03", "C13", "C14"],
+    [PTL + "refines", PTL + "_split_variable_free_terms", PTL + "termlist_to_polytope", PTL + "lacks_constraints"],
+    "S",
+    bound=B2 + " (1 left term, 1 right term, and two constraints 0 <= c on each side, at either end)",
+    assumes=["contract of verify_polytope_containment / is_polytope_empty (h_lp)", "A5"],
+    covers=["decided_without_containment_test", "containment_test"],
+)(_refines_vf(1, 1, 2))
+
+for _n in (0, 1):
+    contract(
+        "PolyhedralTermList.is_empty[%d,plus two constraints without variables]" % _n,
+        ["C11", "C13", "C14"],
+        [PTL + "is_empty", PTL + "_split_variable_free_terms", PTL + "termlist_to_polytope"],
+        "S",
+        bound="%d terms over {x,y}, every support, and two constraints 0 <= c, at either end" % _n,
+        assumes=["contract of is_polytope_empty (h_lp)", "A5"],
+    )(_is_empty_vf(_n, 2))
+
+
+# the helper itself: which terms are set aside, and what they say together
+def _split_vf(n):
+    def c(h):
+        s = S(h)
+        ts = [s.term("a%d" % i, V2) for i in range(n)]
+        A = s.termlist(ts)
+        snaps = [s.snapshot(t) for t in ts]
+        out = h.call(h.method(A, "_split_variable_free_terms"), [])
+        h.check("C14.split_variable_free.no_exception", out.kind == "return", "raised %s at %s" % (out.exc_name, out.where))
+        if out.kind != "return":
+            return
+        h.cover("return")
+        v = out.value
+        items = list(v) if isinstance(v, (tuple, list)) else getattr(v, "items", None)
+        ok = items is not None and len(items) == 2 and s.is_termlist(items[0])
+        h.check("C07.split_variable_free.returns_list_and_flag", ok, "%r" % (v,))
+        if not ok:
+            return
+        kept, flag = items
+        want = [t for t in ts if s.coefs(t)]
+        got = kept.attrs["terms"].items
+        h.check("C07.split_variable_free.keeps_exactly_the_terms_with_variables_in_order", len(got) == len(want) and all(a is b or s.snapshot(a) == s.snapshot(b) for a, b in zip(got, want)), "%d kept of %d with variables" % (len(got), len(want)))
+        fails = [s.const(t) < 0 for t in ts if not s.coefs(t)]
+        h.ensure("C07.split_variable_free.flag_iff_some_constant_constraint_fails", _bool(flag) == (z3.Or(*fails) if fails else z3.BoolVal(False)))
+        h.check("C13.operands_unchanged", all(s.unchanged(t, sn) for t, sn in zip(ts, snaps)) and A.attrs["terms"].items == ts, "self modified")
+        h.frame_ok(out, "C13.frame")
+
+    return c
+
+
+for _n in (0, 1, 2, 3):
+    contract(
+        "PolyhedralTermList._split_variable_free_terms[%d]" % _n,
+        ["C07", "C03", "C11", "C12", "C13", "C14"],
+        [PTL + "_split_variable_free_terms"],
+        "S",
+        bound="%d terms over {x,y}, every support (the empty one included), arbitrary real constants" % _n,
+        covers=["return"],
+    )(_split_vf(_n))
